@@ -667,3 +667,18 @@ func keylogLookup(kl, label string, clientRandom []byte) []byte {
 	}
 	return nil
 }
+
+// keylogAll returns the secrets of every line with the given label.
+func keylogAll(kl, label string) [][]byte {
+	var out [][]byte
+	for _, ln := range strings.Split(kl, "\n") {
+		f := strings.Fields(ln)
+		if len(f) == 3 && f[0] == label {
+			var v []byte
+			if _, err := fmt.Sscanf(f[2], "%x", &v); err == nil {
+				out = append(out, v)
+			}
+		}
+	}
+	return out
+}
